@@ -282,32 +282,30 @@ def check(prop, tier, seed, replay=None):
     boost = not proof_ok
     if replay:
         payload = json.load(open(replay))
-        lines = payload.get("lines") or [payload["line"]]
+        gen = iter(payload.get("lines") or [payload["line"]])
     else:
-        lines = list(plugin.cases(rng, "thorough" if boost else tier))
+        gen = iter(plugin.cases(rng, "thorough" if boost else tier))
+    # a broken proof leg raises a quick run to the thorough generator: the failing-input search.  It stops
+    # early once enough failing inputs are in hand, and is capped so that a quick check stays a quick check.
+    cap_cases = 200000 if (boost and tier == "quick") else None
+    cap_seconds = 300 if (boost and tier == "quick") else None
+    t_gen = time.time()
     seen = set()
-    uniq = []
-    for l in lines:
-        if l not in seen:
-            seen.add(l)
-            uniq.append(l)
-    lines = uniq
+    lines = []
     impl_out = []
-    for l in lines:
-        try:
-            impl_out.append(plugin.impl(l))
-        except Exception as exc:  # the adapter itself must not raise: infra
-            raise Infra("adapter raised on %r: %r\n%s" % (l, exc, traceback.format_exc()))
-    model_ok = drv_ok
-    model_out = None
-    if model_ok:
-        model_out = driver_run(lines)
     dist = {}
     nontrivial = set()
-    disagreements = []
     oracle_fail = []
-    for idx, l in enumerate(lines):
-        o = impl_out[idx]
+    for l in gen:
+        if l in seen:
+            continue
+        seen.add(l)
+        try:
+            o = plugin.impl(l)
+        except Exception as exc:  # the adapter itself must not raise: infra
+            raise Infra("adapter raised on %r: %r\n%s" % (l, exc, traceback.format_exc()))
+        lines.append(l)
+        impl_out.append(o)
         label = plugin.classify(l, o)
         dist[label] = dist.get(label, 0) + 1
         if plugin.nontrivial(l, o):
@@ -315,8 +313,25 @@ def check(prop, tier, seed, replay=None):
         why = plugin.oracle(l, o)
         if why:
             oracle_fail.append((l, o, why))
-        if model_out is not None and model_out[idx] != o:
-            disagreements.append((l, o, model_out[idx]))
+        if boost and not replay:
+            if len(oracle_fail) >= 200:
+                notes.append("failing-input search stopped after %d failing inputs" % len(oracle_fail))
+                break
+            if cap_cases and len(lines) >= cap_cases:
+                notes.append("failing-input search capped at %d cases" % cap_cases)
+                break
+            if cap_seconds and len(lines) % 500 == 0 and time.time() - t_gen > cap_seconds:
+                notes.append("failing-input search capped at %d s (%d cases)" % (cap_seconds, len(lines)))
+                break
+    model_ok = drv_ok
+    model_out = None
+    if model_ok:
+        model_out = driver_run(lines)
+    disagreements = []
+    if model_out is not None:
+        for idx, l in enumerate(lines):
+            if model_out[idx] != impl_out[idx]:
+                disagreements.append((l, impl_out[idx], model_out[idx]))
 
     extra = {}
     if hasattr(plugin, "extra") and not replay:
@@ -335,10 +350,11 @@ def check(prop, tier, seed, replay=None):
                                       "decoded": plugin.describe(l) if hasattr(plugin, "describe") else None,
                                       "replay_cmd": "./run.py --property %s --replay <this file>" % prop}))
     corr_unexplained = []
+    oracle_failed_lines = set(x[0] for x in oracle_fail)
     for (l, o, m) in disagreements:
         # a disagreement on an input where the oracle already judged the implementation
         # wrong is explained by that violation / known finding
-        if any(l == x[0] for x in oracle_fail):
+        if l in oracle_failed_lines:
             continue
         corr_unexplained.append((l, o, m))
     if corr_unexplained:
